@@ -51,7 +51,10 @@ Record c27_case := C27Case {
                               one; the payload's [res] is then left out (None) *)
   c_trunc_ok : list N;     (* mode 0: lengths of the strict prefixes Decode accepted *)
   c_alloc : N;             (* bytes allocated by Decode (c_data) *)
-  c_alloc_trunc : N        (* mode 0: largest allocation among the prefix decodes *)
+  c_alloc_trunc : N;       (* mode 0: largest allocation among the prefix decodes *)
+  c_alloc_inflate : N      (* mode 0: count-inflation sweep — a uvarint of 10^6 / 2^62 written over each
+                              position of the encoding in turn; largest per-decode allocation (average
+                              over groups of 8 decodes) *)
 }.
 
 (* request.Valid() by position, from the bits the harness observed *)
@@ -140,7 +143,8 @@ Definition C27_mismatch (c : c27_case) : bool :=
 
 Definition alloc_under (base per_byte : N) (c : c27_case) : bool :=
   (c_alloc c <=? base + per_byte * blen (c_data c))
-  && (c_alloc_trunc c <=? base + per_byte * blen (c_data c)).
+  && (c_alloc_trunc c <=? base + per_byte * blen (c_data c))
+  && (c_alloc_inflate c <=? base + per_byte * (blen (c_data c) + 10)).
 
 (* [hdr]: how many leading bytes the codec can miss.  A self-delimiting codec
    (a length or a trailing-bytes check covers the whole input) has hdr = None:
